@@ -2,10 +2,12 @@ module verif/harness
 
 go 1.20
 
-require github.com/go-openapi/spec v0.0.0
+require (
+	github.com/go-openapi/jsonpointer v0.21.1
+	github.com/go-openapi/spec v0.0.0
+)
 
 require (
-	github.com/go-openapi/jsonpointer v0.21.1 // indirect
 	github.com/go-openapi/jsonreference v0.21.0 // indirect
 	github.com/go-openapi/swag v0.23.1 // indirect
 	github.com/josharian/intern v1.0.0 // indirect
